@@ -35,7 +35,7 @@ THEOREM_FILE = "Props/C20.v"
 CHK_MODULE = "Check.Chk_C20"
 CASE_TYPE = "Chk_C20.case"
 CHECK_FN = "Chk_C20.check_case"
-HEADER = "From Ropt Require Import Model.Pipe Gen.Generated."
+HEADER = "From Ropt Require Import Model.Framing Model.Pipe Gen.Generated."
 SHARD_SIZE = 8
 PARALLEL = True
 CASE_TIMEOUT = 420
@@ -791,7 +791,7 @@ def _framing_probe(mode: str, scratch: Path) -> dict:
     """Feed the real _JSONPipeCommunicator.read through a real FIFO, piece by piece with a read() after every piece:
     nothing may be returned before the last piece, the exact message after it."""
     import ropt.plugins.optimizer.external as ext
-    feeds, failures = 0, []
+    feeds, failures, records = 0, [], []
     root = scratch / "framing"
     root.mkdir(exist_ok=True)
     for msg, cuts in _framing_feeds(mode):
@@ -799,34 +799,62 @@ def _framing_probe(mode: str, scratch: Path) -> dict:
         data = f"{json.dumps(msg)}\n{ext._JSONPipeCommunicator.DELIMITER}\n".encode()
         pieces = [data[a:b] for a, b in zip([0] + cuts, cuts + [len(data)])]
         rfifo, wfifo = root / f"r{feeds}", root / f"w{feeds}"
-        got, early = None, None
+        returns, error = [], None          # per piece: what read() returned when polled until None
         try:
-            with ext._JSONPipeCommunicator(rfifo, wfifo, timeout=0.05) as comm:
+            if ext._JSONPipeCommunicator.DELIMITER != "--READY--":
+                raise ValueError("delimiter text changed: Chk_C20.delim_bytes must follow")
+            with ext._JSONPipeCommunicator(rfifo, wfifo, timeout=0.002) as comm:
                 wfd = os.open(rfifo, os.O_WRONLY)
                 try:
                     for i, piece in enumerate(pieces):
                         os.write(wfd, piece)
-                        for _ in range(1 if i + 1 < len(pieces) else 8):
+                        got_here, polls = [], (1 if i + 1 < len(pieces) else 8)
+                        while polls > 0 and len(got_here) < 4:
                             got = comm.read()
-                            if got is not None:
-                                break
-                        if got is not None and i + 1 < len(pieces):
-                            early = got
-                            break
+                            if got is None:
+                                polls -= 1
+                                if got_here or i + 1 < len(pieces):
+                                    break
+                            else:
+                                got_here.append(json.dumps(got))
+                        returns.append(got_here)
                 finally:
                     os.close(wfd)
         except Exception as exc:  # noqa: BLE001 - the observation is the exception
-            got = f"{type(exc).__name__}: {exc}"[:80]
+            error = f"{type(exc).__name__}: {exc}"[:80]
         finally:
             for f in (rfifo, wfifo):
                 try:
                     f.unlink()
                 except OSError:
                     pass
-        if early is not None or bitify(got) != bitify(msg):
-            failures.append({"length": len(data), "cuts": cuts, "message": repr(msg)[:40],
-                             "got": "nothing" if got is None else repr(got)[:60], "early": early is not None})
-    return {"mode": mode, "feeds": feeds, "failures": failures[:6], "nfail": len(failures)}
+        while len(returns) < len(pieces):
+            returns.append([])
+        # every feed is judged by the oracle below; the model reader (Chk_C20.framing_agrees) is evaluated on a sample
+        # that keeps the check fast: short messages -- all cuts in the delimiter line, every 4th elsewhere, the
+        # three-piece feeds of one message kind; long messages -- one capacity, d in {-12, -1, 0, 1, 5, 9, 10, 12}
+        if len(data) < 4096:
+            to_coq = (len(cuts) == 1 and (cuts[0] >= len(data) - 14 or cuts[0] % 4 == 0)) or (len(cuts) == 2 and msg == "abort")
+        else:
+            d = len(data) - PIPE_CAPACITY
+            to_coq = d in (-12, -1, 0, 1, 5, 9, 10, 12) or (len(data) < PIPE_CAPACITY - 100 and feeds % 5 == 0)
+        if to_coq or error is not None or returns != [[]] * (len(pieces) - 1) + [[json.dumps(msg)]]:
+            if len(records) < 400:
+                records.append([[_rle(p) for p in pieces], [[_rle(m.encode()) for m in r] for r in returns]])
+        if error is not None or returns != [[]] * (len(pieces) - 1) + [[json.dumps(msg)]]:
+            failures.append({"length": len(data), "cuts": cuts, "message": repr(msg)[:40], "error": error,
+                             "returned_per_piece": [[m[:30] for m in r] for r in returns]})
+    return {"mode": mode, "feeds": feeds, "failures": failures[:6], "nfail": len(failures), "records": records}
+
+
+def _rle(data: bytes) -> list:
+    out = []
+    for b in data:
+        if out and out[-1][0] == b:
+            out[-1][1] += 1
+        else:
+            out.append([b, 1])
+    return out
 
 
 # sections of the configuration the optimizer in the child reads: they must survive the pipe bit by bit;
@@ -989,6 +1017,13 @@ def _fault_terms(case: dict, survived: bool = False) -> tuple[str, str]:
     return "NoFault", "None"
 
 
+def _framing_term(records: list) -> str:
+    rle = lambda r: "[" + "; ".join(f"({int(b)}, {int(n)})" for b, n in r) + "]"                      # noqa: E731
+    feed = lambda f: ("([" + "; ".join(rle(p) for p in f[0]) + "], ["                                   # noqa: E731
+                      + "; ".join("[" + "; ".join(rle(m) for m in r) + "]" for r in f[1]) + "])")
+    return "([" + ";\n  ".join(feed(f) for f in records) + "])%nat"
+
+
 def coq_case(case: dict, obs: dict) -> str:
     i, e = obs["inproc"], obs["ext"]
     end = _end_of(i)
@@ -1015,7 +1050,7 @@ def coq_case(case: dict, obs: dict) -> str:
         cq.nat(min(len(e["fifo_left"]), 1000)),
         cq.nat(min(len(i["stray"]) + len(e["stray"]) + (1 if e["wire_broken"] else 0), 1000)),
         cq.b(i.get("files_ok", True) and e.get("files_ok", True)),
-        cq.b(not (obs.get("framing") or {}).get("nfail")),
+        _framing_term((obs.get("framing") or {}).get("records") or []),
         f"({int(e['wall_ms'])})%Z",
     ]
     return "(Build_case\n " + "\n ".join(fields) + ")"
@@ -1434,7 +1469,8 @@ RULE = ("every case = one in-process run and one run through external/<method> (
         "1-2 objectives, 1-3 realizations, nonlinear and linear constraints, two- and one-sided bounds, variable masks, explicit "
         "start vectors, speculative / split evaluations, max_functions / maxiter, optimizer.output_dir / stdout / stderr paths, "
         "config messages of pipe capacity + 1..9 bytes, a framing probe (the real _JSONPipeCommunicator.read fed through a FIFO in "
-        "pieces: short messages cut at every offset, 65536*k + d byte messages cut at the capacity), "
+        "pieces: short messages cut at every offset, 65536*k + d byte messages cut at the capacity; per-piece returns compared in Coq with "
+        "the proved reader of Model/Framing.v on a sample of up to 400 feeds per probe, all feeds judged by the oracle), "
         "numpy scalars (int64 / float64 / bool_) in optimizer.options, an option value JSON cannot encode (set / object(): the "
         "external run may raise, without orphan or hang), a "
         "configuration with 800 linear constraints / 1800 variables (messages above the pipe capacity), "
@@ -1476,10 +1512,18 @@ TRUSTED = [
     "kill / rkill / exit / raise faults, pipe schedule, then ropt's own entry point) and the recording monkey-patches of the harness process "
     "(EnsembleOptimizer._optimizer_callback, _JSONPipeCommunicator.read/write incl. the injected 'not ready' results and the outside kill)",
     "SciPy optimizers and the EnsembleEvaluator are black boxes here: only their observable request/answer sequence is used",
+    "framing: the model (Model/Framing.v) omits the `.strip()` of the delimiter line and of the message and is stated for messages without "
+    "newline that are not the delimiter text (what json.dumps emits); the writer side (write loops over short writes) is not modelled -- it is "
+    "exercised by the big-message and padded-config runs; Chk_C20.delim_bytes = '--READY--' (the probe fails closed if the constant changes)",
 ]
 
 MANIFEST = {
-    "level_text": ("Machine-checked Coq proof about an executable message-level model of ropt/plugins/optimizer/external.py (child program, "
+    "level_text": ("Machine-checked Coq proof about an executable model of the framing layer of _JSONPipeCommunicator (Model/Framing.v: for every "
+                   "list of newline-free messages and EVERY way the FIFO cuts their byte stream into pieces the reader returns exactly the "
+                   "messages, in order; one message cut in two at any offset, also inside the delimiter line, is returned only after the "
+                   "second piece: C20_framing_any_chunking, C20_framing_two_pieces), tied to the real read() by a probe that feeds it through "
+                   "a real FIFO piece by piece (model reader evaluated in Coq on a sample of the feeds, every feed judged by the oracle), and "
+                   "about an executable message-level model of ropt/plugins/optimizer/external.py (child program, "
                    "parent request loop with its answer/exception variables and write retry, JSON encode/decode of the four request and four "
                    "answer kinds, faults: death by any signal when about to write message k / right after the answer to message k / while "
                    "waiting for that answer, exit with a code): for every optimizer strategy, evaluator and pipe schedule the external run "
